@@ -1,12 +1,16 @@
-(* Properties_C03.v — property C03: log is the principal inverse of exp.  Closed so far (exact over the reals):
-   SO2 and SE2 — exp(log X) = X for every valid X (any hemisphere of the complex number, any translation),
-   log(exp t) = t for every tangent with rotation in (-pi, pi] (both the Taylor and the generic branch of
-   SE2's V matrix: only A^2+B^2 <> 0 is needed), and the rotation angle of log is in (-pi, pi];
-   Rn (log and exp are the identity).  SO3 / SE3 / SE_2(3) / SGal(3): tested on every run (100-digit and
-   double), including q / -q pairs and elements with w < 0 and a tiny vector part (the defect repaired by
-   fix edde36d); not proved. *)
+(* Properties_C03.v — property C03: log is the principal inverse of exp.  Closed (exact over the reals):
+   SO2 and SE2 — exp(log X) = X for every valid X (any hemisphere of the complex number, any translation), log(exp t) = t for
+   every tangent with rotation in (-pi, pi] (both the Taylor and the generic branch of SE2's V matrix), rotation of log in
+   (-pi, pi]; Rn (log and exp are the identity);
+   SO3, SE3, SE_2(3), SGal(3), closed-form branches — exp(log X) = X up to the sign of the quaternion (the same
+   transformation; off the exact half turn for the groups with a translation, where the code's V^-1 divides by sin theta),
+   log(exp t) = t for every tangent with rotation angle below pi, log(-q) = log(q), rotation angle of log at most pi;
+   Bundles of any layout of groups with exp(log X) = X.
+   Not closed: the small-angle (Taylor) branches of the quaternion groups, where the truncated series make the round trips
+   hold only to O(theta^2 eps): tested on every run in 100-digit arithmetic and in double, including q / -q pairs and
+   elements with w < 0 and a tiny vector part (the defect repaired by fix edde36d). *)
 From Coq Require Import Reals List Lra Lia.
-From Manif Require Import Scalar Mat Group RInst Generic LieSpec SO2 SE2 SO3 Rn SE2Proofs SO3Proofs RnProofs Log_SE2 Approx_Inst SE3 Log_SO3 Log_SE3 LogExp_SO3 LogExp_SE3 SE23 LogExp_SE23 Log_SE23
+From Manif Require Import Scalar Mat Group RInst Generic LieSpec SO2 SE2 SO3 Rn SE2Proofs SO3Proofs RnProofs Log_SE2 Approx_Inst SE3 Log_SO3 Log_SE3 LogExp_SO3 LogExp_SE3 SE23 LogExp_SE23 Log_SE23 SGal3 LogExp_SGal3
   Bundle BundleLaws BundleInst InterpProofs InterpInst BundleExpLog.
 Import ListNotations.
 Local Open Scope R_scope.
@@ -79,6 +83,14 @@ Theorem C03_SE23_log_exp eps a b c x y z d e f : 0 < eps -> eps < x * x + y * y 
   eps < sin (sqrt (x * x + y * y + z * z) / 2) * sin (sqrt (x * x + y * y + z * z) / 2) ->
   se23_log RS eps (se23_exp RS eps [a; b; c; x; y; z; d; e; f]) = [a; b; c; x; y; z; d; e; f].
 Proof. intros H. exact (se23_log_exp_generic eps H a b c x y z d e f). Qed.
+Theorem C03_SGal3_log_exp eps a b c d e f x y z tau : 0 < eps -> eps < x * x + y * y + z * z -> sqrt (x * x + y * y + z * z) < PI ->
+  eps < sin (sqrt (x * x + y * y + z * z) / 2) * sin (sqrt (x * x + y * y + z * z) / 2) ->
+  sg_log RS eps (sg_exp RS eps [a; b; c; d; e; f; x; y; z; tau]) = [a; b; c; d; e; f; x; y; z; tau].
+Proof. intros H. exact (sg_log_exp_generic eps H a b c d e f x y z tau). Qed.
+Theorem C03_SGal3_exp_log_generic eps px py pz x y z w vx vy vz t : 0 < eps -> n4 x y z w = 1 -> eps < x * x + y * y + z * z -> w <> 0 ->
+  sg_exp RS eps (sg_log RS eps [px; py; pz; x; y; z; w; vx; vy; vz; t]) =
+  [px; py; pz] ++ (if Rlt_dec w 0 then [- x; - y; - z; - w] else [x; y; z; w]) ++ [vx; vy; vz; t].
+Proof. intros H. exact (sg_exp_log_generic eps H px py pz x y z w vx vy vz t). Qed.
 Print Assumptions C03_SE3_log_exp.
 
 (* Bundles: exp(log X) = X lifts from the element groups to a Bundle of ANY layout of them (BundleLaws.v: the Bundle's
